@@ -62,6 +62,7 @@ type origin struct {
 	t0    time.Time
 	base  string
 	gate  chan struct{} // closed when held requests may proceed
+	journal *os.File
 }
 
 func genBytes(size, seed int) []byte {
@@ -118,6 +119,9 @@ func (o *origin) ServeHTTP(w http.ResponseWriter, r *http.Request) {
 	o.count[key]++
 	rec := &originReq{N: len(o.log), Key: key, Attempt: attempt, T: time.Since(o.t0).Nanoseconds()}
 	o.log = append(o.log, rec)
+	if o.journal != nil {
+		fmt.Fprintln(o.journal, key) // survives a SIGKILL of this process
+	}
 	spec, _ := o.site[key].(map[string]any)
 	o.mu.Unlock()
 	defer func() {
@@ -563,6 +567,10 @@ func runE2E(in map[string]any) string {
 	port := ln.Addr().(*net.TCPAddr).Port
 	site, _ := in["site"].(map[string]any)
 	o := &origin{site: site, count: map[string]int{}, t0: time.Now(), base: fmt.Sprintf("http://127.0.0.2:%d", port), gate: make(chan struct{})}
+	if jf, err := os.OpenFile("origin.journal", os.O_CREATE|os.O_APPEND|os.O_WRONLY, 0644); err == nil {
+		o.journal = jf
+		fmt.Fprintln(jf, "# run")
+	}
 	srv := &http.Server{Handler: o}
 	go srv.Serve(ln)
 	defer srv.Close()
@@ -652,7 +660,11 @@ func runE2E(in map[string]any) string {
 		}
 		db.Exec(lq.VerifDDL())
 		for i, s := range strList(in, "seeds") {
-			db.Exec("INSERT INTO urls (id, value, via, hops, status, timestamp) VALUES (?, ?, '', 0, 'FRESH', ?)", fmt.Sprintf("s%d", i), abs(s), time.Now().Unix())
+			v := abs(s)
+			if strings.HasPrefix(s, "raw:") {
+				v = strings.ReplaceAll(s[4:], "{BASE}", o.base) // stored as it is, like an outlink found on a page
+			}
+			db.Exec("INSERT INTO urls (id, value, via, hops, status, timestamp) VALUES (?, ?, '', 0, 'FRESH', ?)", fmt.Sprintf("s%d", i), v, time.Now().Unix())
 		}
 		db.Close()
 	}
@@ -660,6 +672,9 @@ func runE2E(in map[string]any) string {
 	g0 := runtime.NumGoroutine()
 	controler.Start()
 	started := time.Now()
+	if boolean(in, "announceStart", false) {
+		fmt.Fprintln(protocolOut, "STARTED")
+	}
 
 	// ---- wait for the stop moment
 	stop, _ := in["stop"].(map[string]any)
@@ -729,7 +744,7 @@ func runE2E(in map[string]any) string {
 	}
 	if boolean(stop, "noStop", false) {
 		// the caller kills the process; keep the crawl going
-		fmt.Println("READY")
+		fmt.Fprintln(protocolOut, "READY")
 		select {}
 	}
 	// ---- stop, with a watchdog
